@@ -129,16 +129,21 @@ enum Ev {
 }
 
 fn drive<T>(mut s: Streaming<T>, ser: impl Fn(&T) -> Vec<u8>) -> (Vec<Ev>, bool) {
-    let mut cx = Context::from_waker(Waker::noop());
+    let (waker, wakes) = crate::env::counting_waker();
+    let mut cx = Context::from_waker(&waker);
     let mut evs = vec![];
     let mut after_terminal = 0;
     let mut polls = 0;
     loop {
         polls += 1;
-        if polls > 2000 {
+        if polls > 200_000 {
             return (evs, true);
         }
+        let before = wakes.0.load(std::sync::atomic::Ordering::SeqCst);
         match Pin::new(&mut s).poll_next(&mut cx) {
+            // `Pending` without a wake-up: a caller awaiting the stream would sleep forever (every
+            // scripted body wakes its caller before it answers `Pending`)
+            Poll::Pending if wakes.0.load(std::sync::atomic::Ordering::SeqCst) == before => return (evs, true),
             Poll::Pending => continue,
             Poll::Ready(Some(Ok(m))) => evs.push(Ev::Msg(ser(&m))),
             Poll::Ready(Some(Err(e))) => evs.push(Ev::Err(fmt_status(&e))),
@@ -400,6 +405,15 @@ fn cases(tier: Tier) -> Vec<Case> {
             }
         }
     }
+    // (d') one 400-byte message arriving byte by byte (more than 256 DATA frames for one message),
+    // complete and cut short
+    for prost in [false, true] {
+        let stream = valid_stream(&[vec![0x61u8; 400], vec![2]], None, prost);
+        for dir in [Dir::Request, Dir::Resp200] {
+            out.push(Case { input: stream.clone(), prost, enc: None, dir, trl: Trl::Ok, err_at: None, mode: Mode::Drip, origin: "long-drip", limit: None });
+            out.push(Case { input: stream[..300].to_vec(), prost, enc: None, dir, trl: Trl::Ok, err_at: None, mode: Mode::Drip, origin: "long-drip-truncated", limit: None });
+        }
+    }
     // (e) small messages around one of 70 000 bytes (receive buffers beyond 64 KiB), the small ones
     // shaped like frame prefixes so that a misaligned reader would yield them as messages
     for prost in [false, true] {
@@ -416,7 +430,7 @@ fn cases(tier: Tier) -> Vec<Case> {
 }
 
 pub fn property(tier: Tier) -> Property {
-    let rule = "cases: every byte string of length <= N over {00,01,02,05,80,ff} and every truncation/substitution/deletion/duplication of valid 1-3 message streams (identity/gzip/deflate/zstd; raw and prost decoders), x direction x trailers x injected body errors, plus valid streams read under a receiver size limit placed below / at / between / above the on-the-wire and the decompressed length of a well compressible message, plus small frame-shaped messages around a 70 000-byte one delivered whole / in large blocks (complete and truncated); environment: every chunking with <= bound cuts/Pending/empty-frame deviations plus byte-by-byte drip; polled 5 more times after the first terminal event. Non-trivial = input is not a clean valid stream (malformed, truncated, body error, or non-OK trailers); distinct = distinct (case, choice vector)";
+    let rule = "cases: every byte string of length <= N over {00,01,02,05,80,ff} and every truncation/substitution/deletion/duplication of valid 1-3 message streams (identity/gzip/deflate/zstd; raw and prost decoders), x direction x trailers x injected body errors, plus valid streams read under a receiver size limit placed below / at / between / above the on-the-wire and the decompressed length of a well compressible message, plus a 400-byte message dripped byte by byte (complete and truncated), plus small frame-shaped messages around a 70 000-byte one delivered whole / in large blocks (complete and truncated); environment: every chunking with <= bound cuts/Pending/empty-frame deviations plus byte-by-byte drip; polled 5 more times after the first terminal event. Non-trivial = input is not a clean valid stream (malformed, truncated, body error, or non-OK trailers); distinct = distinct (case, choice vector)";
     let describe = |c: &Case| {
         format!(
             "{} input={} prost={} enc={} dir={:?} trailers={:?} err_at={:?} mode={:?} limit={:?}",
